@@ -152,7 +152,8 @@ func genC10(seed uint64, tier string) Case {
 			}
 			c.Ops = append(c.Ops, Op{C: cl, K: "idx", A: []int64{it, int64(r.intn(2)), int64(r.intn(3)), int64(r.intn(4))}})
 		case 4:
-			c.Ops = append(c.Ops, Op{C: cl, K: "stream", A: []int64{int64(r.intn(4)), int64(r.intn(2)), int64(r.intn(2))}})
+			// filter: none | a scanned comparison | an EQUAL on one of five body paths (the first query on a path builds its field index)
+			c.Ops = append(c.Ops, Op{C: cl, K: "stream", A: []int64{int64(r.intn(4)), int64(r.intn(2)), int64(r.intn(3)), int64(r.intn(5))}})
 		case 5:
 			c.Ops = append(c.Ops, Op{C: cl, K: "count"})
 		default:
@@ -485,7 +486,10 @@ func runC10(t *testing.T, c Case) (res Result) {
 			case "stream":
 				it := []hydrapb.IndexType_Type{hydrapb.IndexType_KEY, hydrapb.IndexType_EXPIRATION_TIME, hydrapb.IndexType_CREATION_TIME, hydrapb.IndexType_UPDATE_TIME}[op.A[0]]
 				q := &hydrapb.GetByIndexStreamRequest{IslandID: 1, SwampName: swamp, IndexType: it, OrderType: hydrapb.OrderType_Type(op.A[1])}
-				if op.A[2] == 1 {
+				if op.A[2] == 2 && body && len(op.A) > 3 {
+					p := []string{"grp", "n", "ver", "cl", "zz"}[op.A[3]%5]
+					q.Filters = &hydrapb.FilterGroup{Logic: hydrapb.FilterLogic_AND, Filters: []*hydrapb.TreasureFilter{{BytesFieldPath: &p, Operator: hydrapb.Relational_EQUAL, CompareValue: &hydrapb.TreasureFilter_Int64Val{Int64Val: op.A[0]}}}}
+				} else if op.A[2] >= 1 {
 					if body {
 						p := "n"
 						q.Filters = &hydrapb.FilterGroup{Logic: hydrapb.FilterLogic_AND, Filters: []*hydrapb.TreasureFilter{{BytesFieldPath: &p, Operator: hydrapb.Relational_GREATER_THAN, CompareValue: &hydrapb.TreasureFilter_Int64Val{Int64Val: 0}}}}
